@@ -21,7 +21,7 @@ STATUS = {
  "C10": ("8 invariance theorems over all states/continuations; reindent under monotone maps; eof_blank_tail_invisible / eof_comment_tail_invisible (blanks or a comment after the last line break, any width)", "layout model vs real lexer kinds", "AST equality under 11 edit kinds (incl. blanks after the last line break; inserted comments with multi-byte text); text cut at the end of seeded logical lines parses the same with and without its final newline"),
  "C11": ("get_line_info slices on boundaries, EOF, C19 ranges (partial scope)", "format_error rendering incl. long lines", "whole pipeline fuzz with watchdog, incl. parseable programs with odd declaration graphs (generated extends cycles / self loops / unknown bases x trait adoption x uses that walk the graph) and arity inputs (built-in methods and functions with 0-4 arguments, tuple unpacking with the wrong number of names)"),
  "C12": ("manifest_order_independent; module tree (Tool/ModuleTree): children_order_independent, children_nodup, carrier_order_independent, never_file_and_modrs, old_generator_wrote_both witness", "manifest repeated with fresh hash maps; generate_nested on generated path sets (shared prefixes, module = directory), three fresh hash maps each: files written + `pub mod` lines per directory = model", "3 processes × environments, in-process twice; error-provoking programs (several unknown keywords / wrong arguments / duplicate declarations), a broken dependency checked through a relative path from different directories, `incan test -v` with seven fixtures in four processes"),
- "C13": ("table_complete / table_sound / legal_keywords_rawable over tables REGENERATED from the source on every run, emitted_identifier_valid_partial, emit_injective, rename_preserves_binding, self_type_name_unemittable (Props/C13, Sem/Names, Generated/Keywords)", "is_keyword on every entry + near misses; emitTok = spelling of a local and a struct field in the emitted Rust; one compiled program per (binding position, name) over 38 positions (payload variants constructed / matched / bound, keyword arguments of functions and methods, closures with one and two parameters, field chains, consts in consts …) incl. reflection (__fields__, __class_name__, JSON keys); sibling names (k, k_, _k, r_k, K) bound side by side", "renamed program behaves like the plain-named one; sibling bindings keep their own values"),
+ "C13": ("table_complete / table_sound / legal_keywords_rawable over tables REGENERATED from the source on every run, emitted_identifier_valid_partial, emit_injective, rename_preserves_binding, renamed_use_resolves_to_same_binder / renamed_free_stays_free / renamed_scope_nodup / renamed_program_tokens_valid (scope chains with shadowing, any depth), self_type_name_unemittable (Props/C13, Sem/Names, Generated/Keywords)", "is_keyword on every entry + near misses; emitTok = spelling of a local and a struct field in the emitted Rust; one compiled program per (binding position, name) over 38 positions (payload variants constructed / matched / bound, keyword arguments of functions and methods, closures with one and two parameters, field chains, consts in consts …) incl. reflection (__fields__, __class_name__, JSON keys); sibling names (k, k_, _k, r_k, K) bound side by side", "renamed program behaves like the plain-named one; sibling bindings keep their own values"),
  "C14": ("resolvers_agree_partial + 3 witnesses, private_rejected, exported_iff, private_decl_rejected, work-list lemmas", "both resolvers on real trees (incl. deep entries, multi-level parents, pairs of imports in one file in both orders), visibility verdicts (plain and `as`-aliased imports: alias fresh, alias = another pub name, alias = a private name; bare use of a declaration that the import does not name), export computation on generated modules imported from the entry directory and from nested packages (pkg.inner, pkg.sub.deep)", "agreement, visibility, missing/cycle"),
  "C15": ("table_pinned over the crate table REGENERATED from add_rust_crate on every run, all_pinned, unknown_refused, deps_exact, names_nodup; json_trigger_found_everywhere / async_trigger_found_everywhere (Tool/Scanners: every walker step is one the scanner follows), json_trigger_was_missed witness", "ProjectGenerator + `incan build` (stub cargo) + trigger positions (json_stringify in 40 statement / expression / owner positions; serde derives in every decorator / list / declaration position); scanner sweep: model scans = real detect_*_usage with a trigger at every expression position of ~200 programs", "exactness, pinning, refs ⊆ declared; every placement of serde / async / web over the entry file and two dependency modules"),
  "C16": ("verdict_truthful, skip_not_run, xfail_inverts, filter_exact, all_selected_reported, exit_iff_failure, counts_match, collect_complete / collect_sound / collect_length (discovery over several files), every_test_of_every_file_reported, failing_test_in_any_file_fails_run, first_of_name_hides_a_failure witness (Props/C16, Tool/TestRunner)", "real `incan test` on generated files (every executed test through cargo test)", "ground truth of the test bodies (9 ways to fail: assert, assert_eq / ne / true / false, fail, index, division by zero, unwrap of None), -k with and without --slow over matching slow tests, -x, four @skip spellings, the same test name in two files, nested directories and a symlinked directory, test bodies printing lines that look like the harness's own verdicts, runs whose only blemish is an unexpected pass"),
